@@ -7,7 +7,7 @@ use std::collections::HashMap;
 use std::sync::OnceLock;
 
 pub fn data_path(name: &str) -> String {
-    format!("{}/harness/data/{}", crate::engine::VERIF_DIR, name)
+    format!("{}/harness/data/{}", crate::engine::verif_dir(), name)
 }
 
 pub fn styled_to_base() -> &'static HashMap<char, char> {
